@@ -39,13 +39,19 @@ def self_field(expr, selfname="self"):
 
 
 def field_row(expr, aliases):
-    """(field, row_index_expr) when expr is ``self.f[idx]`` (or a local alias of it)"""
+    """(field, row_index_expr) when expr is ``self.f[idx]`` (or a local alias of it, or ``self.f.setdefault(idx, [])``: the row
+    of idx, created empty when absent)"""
     if isinstance(expr, ast.Name) and expr.id in aliases:
         return field_row(aliases[expr.id], {})
     if isinstance(expr, ast.Subscript):
         f = self_field(expr.value)
         if f:
             return f, expr.slice
+    if isinstance(expr, ast.Call) and isinstance(expr.func, ast.Attribute) and expr.func.attr == "setdefault" and len(expr.args) == 2 and \
+            isinstance(expr.args[1], ast.List) and not expr.args[1].elts:
+        f = self_field(expr.func.value)
+        if f:
+            return f, expr.args[0]
     return None
 
 
@@ -707,10 +713,20 @@ def check_update_vertex_number(R, prog, cname, spec, fi, events):
     for e in other:
         R.bad(F("CO-UPDATE", fi, "Graph.update_vertex_number writes %s" % e.field,
                 "growing the vertex set must not touch edges", e.stmt))
+    # a local that holds the old count (`old = self.n`, bound once before anything is written) stands for self.n
+    old_alias = {}
+    for s_ in stmts_in(fi.node):
+        if isinstance(s_, ast.Assign) and len(s_.targets) == 1 and isinstance(s_.targets[0], ast.Name) and src(s_.value) == "self." + order:
+            if sum(1 for x in stmts_in(fi.node) if isinstance(x, ast.Assign) and any(src(t) == s_.targets[0].id for t in x.targets)) == 1:
+                old_alias[s_.targets[0].id] = s_
+
+    def canon(x):
+        t = src(x)
+        return "self." + order if t in old_alias else t
     good_n = False
     if len(sets) == 1 and sets[0].kind == "set" and isinstance(sets[0].value, ast.Call) and \
             call_name(sets[0].value) == "max":
-        args = sorted(src(x) for x in sets[0].value.args)
+        args = sorted(canon(x) for x in sets[0].value.args)
         good_n = args == sorted(["self." + order, p])
     if good_n:
         R.ok("CO-UPDATE", "Graph.update_vertex_number: n = max(n, new) (never lowered)", fi.key)
@@ -725,8 +741,17 @@ def check_update_vertex_number(R, prog, cname, spec, fi, events):
         for s in stmts_in(fi.node):
             if isinstance(s, ast.For) and apps[0].stmt in s.body and len(s.body) == 1 and \
                     isinstance(s.iter, ast.Call) and call_name(s.iter) == "range" and \
-                    [src(x) for x in s.iter.args] == ["self." + order, p]:
+                    [canon(x) for x in s.iter.args] == ["self." + order, p]:
                 good_rows, loop = True, s
+    if not good_rows and len(apps) == 1 and apps[0].kind == "field_call" and apps[0].op == "extend" and len(apps[0].args) == 1 and \
+            isinstance(apps[0].args[0], (ast.ListComp, ast.GeneratorExp)):
+        comp = apps[0].args[0]
+        # rows.extend([] for _ in range(n, new)): the display [] is evaluated once per element, so every row is a list of its own
+        # ([[]] * k would repeat one list and is not accepted)
+        if isinstance(comp.elt, ast.List) and not comp.elt.elts and len(comp.generators) == 1 and not comp.generators[0].ifs and \
+                isinstance(comp.generators[0].iter, ast.Call) and call_name(comp.generators[0].iter) == "range" and \
+                [canon(x) for x in comp.generators[0].iter.args] == ["self." + order, p]:
+            good_rows, loop = True, apps[0].stmt
     if good_rows:
         R.ok("CO-UPDATE", "Graph.update_vertex_number: one fresh row per new vertex (range(n, new))", fi.key)
     else:
